@@ -151,6 +151,30 @@ def report(P, prop, seed, idx, ops, v, baseline, known_clauses, main):
     return {'clause': clause, 'replay': path, 'len': len(small), 'seed': seed, 'index': idx, 'detail': obs.get('detail')}
 
 
+def hashseed_violation(prop, P, r_other, seed, idx):
+    """C16: the same history gives another serialisation under another PYTHONHASHSEED."""
+    z0 = runner.zygote(REPO)
+    r0 = z0.run({'mode': 'replay', 'property': prop, 'ops': r_other['ops'], 'opts': P.opts})
+    pos = None
+    for i, (a, b) in enumerate(zip(r0['events'], r_other['events'])):
+        if a != b:
+            pos = i
+            break
+    if pos is None or r_other['ops'][pos]['op'] not in ('TO_STRING', 'OBS', 'WRITE'):
+        return None
+    ops = r_other['ops'][:pos + 1]
+    rep = {'property': prop, 'clause': 'serialisation-depends-on-hash-seed', 'seed': seed, 'index': idx, 'ops': ops,
+           'mode': 'hashseed', 'hashseeds': [0, 12345], 'opts': P.opts, 'dsim_version': 1,
+           'observation': {'clause': 'serialisation-depends-on-hash-seed', 'at': pos,
+                           'detail': {'op': r_other['ops'][pos]['op'], 'under_0': r0['events'][pos].get('v') if not isinstance(r0['events'][pos].get('v'), dict) else 'observation differs',
+                                      'under_12345': r_other['events'][pos].get('v') if not isinstance(r_other['events'][pos].get('v'), dict) else 'observation differs'}}}
+    os.makedirs(REPLAYS, exist_ok=True)
+    path = os.path.join(REPLAYS, '%s-hashseed-%s.json' % (prop, ophash(ops)))
+    with open(path, 'w') as f:
+        json.dump(rep, f, indent=1, default=str)
+    return {'clause': rep['clause'], 'replay': path, 'len': len(ops), 'seed': seed, 'index': idx, 'detail': rep['observation']['detail']}
+
+
 def brief_ops(ops, events=None):
     out = []
     for i, op in enumerate(ops[:40]):
@@ -210,13 +234,20 @@ def run_check(prop, tier, seed=None):
     if not only and agg['runs'] > 0:
         try:
             z = runner.Zygote(REPO, env={'PYTHONHASHSEED': '12345'})
-            for idx in sorted(int(k) for k in agg['digests'])[:4]:
+            hs_viol = []
+            for idx in sorted(int(k) for k in agg['digests'])[:P.det_sample]:
                 r = z.run({'mode': P.mode, 'property': prop, 'seed': hash64(seed, prop, idx), 'index': idx, 'cfg': cfg,
                            'opts': P.opts, 'timeout': P.timeout})
                 det['rerun'] += 1
                 if r['digest'] != agg['digests'][str(idx)]:
+                    if prop == 'C16' and not hs_viol:
+                        v = hashseed_violation(prop, P, r, seed, idx)
+                        if v:
+                            hs_viol.append(v)
+                            continue
                     det['mismatch'].append(idx)
             z.close()
+            agg['new'].extend(hs_viol)
         except runner.HarnessError as e:
             agg['errors'].append({'error': 'determinism sample: ' + str(e)[:300]})
         if det['mismatch']:
@@ -330,6 +361,20 @@ def replay_file(path):
     rep = json.load(open(path))
     prop = rep['property']
     P = props.get(prop)
+    if rep.get('mode') == 'hashseed':
+        digs = []
+        for hs in rep['hashseeds']:
+            z = runner.Zygote(REPO, env={'PYTHONHASHSEED': str(hs)})
+            r = z.run({'mode': 'replay', 'property': prop, 'ops': rep['ops'], 'opts': rep.get('opts') or {}})
+            z.close()
+            digs.append(r['events'][-1])
+            print('  PYTHONHASHSEED=%s -> %s' % (hs, json.dumps(r['events'][-1])[:200]))
+        if digs[0] != digs[1]:
+            print('VIOLATION property=%s replay=%s' % (prop, path))
+            print('  clause=%s' % rep['clause'])
+            return 1
+        print('not reproduced: identical under both hash seeds')
+        return 0
     if rep.get('mode') == 'locale':
         from . import extras
         r = extras.c17_locale(prop, 'quick', 0, None)
